@@ -102,6 +102,14 @@ def plan_fault_histories(case: dict, ref: dict) -> list[list[dict]]:
         kind = r.choice(_c16.ERROR_KINDS[e["op"]] + ["crash", "crash"])
         hs.append([{"sigma": {}, "faults": [{"sel": engine.selector_for(e), "kind": kind}], "role": "first-of-rerun"},
                    {"sigma": {}, "role": "rerun"}])
+    # ... or holds LONGER, different files at the paths this run writes (an older, larger version of the package):
+    # a run that reports success must leave exactly the reference output, no stale tail
+    files_ = sorted(k for k, v in ref["out_tree"].items() if "sha" in v)
+    if files_:
+        stale = {}
+        for k in r.sample(files_, min(len(files_), 3)):
+            stale[k] = ref["out_tree"][k]["data"].decode("utf-8", "replace") + "\n// stale tail of an older, longer version\n" * r.randint(2, 6)
+        hs.append([{"sigma": {}, "prepop_files": stale, "role": "stale-leftover"}])
     # obstructed output directory: a regular file where a directory is needed / a directory where the API file goes
     dirs = sorted(k for k, v in ref["out_tree"].items() if v.get("dir"))
     files = sorted(k for k, v in ref["out_tree"].items() if "sha" in v)
@@ -134,12 +142,12 @@ def judge_run(case: dict, hi: int, res: dict, role: str, ref: dict | None) -> li
     if out in ("harness_error", "not_loadable", "usage_error"):
         return viols
     exc = res.get("exception") or {}
-    if role == "rerun" and out == "completed" and ref is not None:
+    if role in ("rerun", "stale-leftover") and out == "completed" and ref is not None:
         d = engine.first_difference(ref["out_tree"], res["out_tree"])
         if d is not None:
             v("rerun-output-differs", difference=d, fingerprint={"gkey": "rerun-differs"})
         return viols
-    if role in ("reference", "schedule", "rerun"):
+    if role in ("reference", "schedule", "rerun", "stale-leftover"):
         if out == "failed":
             v("internal-error" if exc.get("errno") is None else "io-error-without-fault", exception=exc,
               fingerprint={"gkey": f"{exc.get('type')}:{(exc.get('innermost_tool') or ['', ''])[1]}", "message": exc.get("message"), "msg": _fp_msg(exc.get("message", ""))})
